@@ -4,6 +4,8 @@ Actors: a producer client (real Nnearests / cutoffneighbors / cutoffneighbors_pa
 a stub peer writing weights files in the documented format, and reader clients that share
 open handles and call the real read_neighbors frame by frame with a per-call Nmax.
 """
+import os
+
 import numpy as np
 
 from simkit import simio
@@ -132,7 +134,11 @@ class World(WorldBase):
             choices += ["close"]
         if sw["faults"] and self.held:
             choices += ["release"]
+        if live and any(k in LINE_FAULTS for k in sw["faults"]):
+            choices += ["read_sweep"] * 2
         kind = rng.choice(choices)
+        if kind == "read_sweep":
+            return self.gen_read_sweep(rng, live)
         if self.held and rng.random() < 0.5:
             # a client retries the cancelled call: same path, while the old exception is alive
             op = self.gen_produce(rng, path=self.held[-1][2])
@@ -197,6 +203,26 @@ class World(WorldBase):
         if kind == "release":
             return {"op": "release", "all": True}
         raise AssertionError(kind)
+
+    def gen_read_sweep(self, rng, live):
+        sw = self.swarm
+        a = rng.choice(sorted(live))
+        ca = self.configs[self.files[a]["cfg"]]
+        ta = rng.randrange(ca.T)
+        n = ca.Ns[ta]
+        # the frame read afterwards: preferably another file / frame with the same particle number
+        cands = [(p, t) for p in sorted(live) for t in range(self.configs[self.files[p]["cfg"]].T)
+                 if self.configs[self.files[p]["cfg"]].Ns[t] == n]
+        other = [c for c in cands if c != (a, ta)]
+        b, tb = rng.choice(other if other and rng.random() < 0.85 else cands)
+        maxcn = max([r[1] for r in self.files[a]["frames"][ta]] + [r[1] for r in self.files[b]["frames"][tb]])
+        nmax = rng.choice([maxcn, maxcn + 1, 200, None, max(1, maxcn - 1), 65])
+        nln = 7 * n + 14
+        every = os.environ.get("VERIF_TIER", "quick") != "quick" or nln <= 60
+        m = nln if every else rng.choice([12, 24, 40])
+        ats = list(range(1, nln + 1)) if every else sorted({1 + (k * nln) // m + rng.randrange(max(1, nln // m)) for k in range(m)})
+        return {"op": "read_sweep", "a": a, "ta": ta, "b": b, "tb": tb, "nmax": nmax, "ats": [min(nln, x) for x in ats],
+                "exc": rng.choice([k for k in sw["faults"] if k in LINE_FAULTS])}
 
     def gen_config(self, rng):
         sw = self.swarm
@@ -586,19 +612,7 @@ class World(WorldBase):
             raise Violation(f"C05/reader-raised:{tag}", f"{exc[0]}: {exc[1]} at frame {d['cursor']} of {d['path']} Nmax={nmax}")
         rows = fi["frames"][d["cursor"]]
         eff = 200 if nmax is None else nmax
-        want = expected_read(rows, n_t, eff, fi["weights"])
-        if not isinstance(res, np.ndarray):
-            raise Violation(f"C05/frame-shape:{tag}", f"returned {type(res).__name__}")
-        if res.dtype != want.dtype:
-            raise Violation(f"C05/frame-dtype:{tag}", f"dtype {res.dtype}, expected {want.dtype}")
-        if res.shape != want.shape:
-            raise Violation(f"C05/frame-shape:{tag}",
-                            f"shape {res.shape}, expected {want.shape} (Nmax={nmax}, max cn={max(r[1] for r in rows)})")
-        if not np.array_equal(res, want):
-            bad = np.argwhere(res != want)[0]
-            raise Violation(f"C05/frame-read:{tag}",
-                            f"frame {d['cursor']} of {d['path']} Nmax={nmax}: row {bad[0]} col {bad[1]} "
-                            f"got {res[bad[0]].tolist()} expected {want[bad[0]].tolist()}")
+        want = self._judge_read(res, fi, d["cursor"], nmax, tag, d["path"])
         maxcn = max(r[1] for r in rows)
         if eff < maxcn:
             self.ctx.probe("nmax_truncation")
@@ -614,6 +628,72 @@ class World(WorldBase):
         # the client keeps what it was given: later reads must not change an earlier frame
         self.delivered = (self.delivered + [(res, want, f"frame {d['cursor'] - 1} of {d['path']}", tag)])[-12:]
         return f"{h} t={d['cursor'] - 1} nmax={nmax} ev={nev} io={dig}"
+
+    def _judge_read(self, res, fi, t, nmax, tag, path):
+        """The array read_neighbors returned for frame t of a file, against the protocol model."""
+        cfg = self.configs[fi["cfg"]]
+        n_t = cfg.Ns[t]
+        rows = fi["frames"][t]
+        eff = 200 if nmax is None else nmax
+        want = expected_read(rows, n_t, eff, fi["weights"])
+        if not isinstance(res, np.ndarray):
+            raise Violation(f"C05/frame-shape:{tag}", f"returned {type(res).__name__}")
+        if res.dtype != want.dtype:
+            raise Violation(f"C05/frame-dtype:{tag}", f"dtype {res.dtype}, expected {want.dtype}")
+        if res.shape != want.shape:
+            raise Violation(f"C05/frame-shape:{tag}",
+                            f"shape {res.shape}, expected {want.shape} (Nmax={nmax}, max cn={max(r[1] for r in rows)})")
+        if not np.array_equal(res, want):
+            bad = np.argwhere(res != want)[0]
+            raise Violation(f"C05/frame-read:{tag}",
+                            f"frame {t} of {path} Nmax={nmax}: row {bad[0]} col {bad[1]} "
+                            f"got {res[bad[0]].tolist()} expected {want[bad[0]].tolist()}")
+        return want
+
+    def do_read_sweep(self, op):
+        """Crash-point sweep of the reader: a read of frame ta of file a on a private handle is
+        cancelled (or runs out of memory) at one instant after the other over its whole
+        execution; after each, a complete read of frame tb of file b - same particle number,
+        same requested maximum - on another private handle must deliver exactly that frame."""
+        from PyMatterSim.neighbors.read_neighbors import read_neighbors
+        for k in ("a", "b"):
+            if op[k] not in self.files or op[k] not in self.acked:
+                raise Refuse("no file")
+        fa, fb = self.files[op["a"]], self.files[op["b"]]
+        ca, cb = self.configs[fa["cfg"]], self.configs[fb["cfg"]]
+        ta, tb, nmax = op["ta"], op["tb"], op["nmax"]
+        if ta >= ca.T or tb >= cb.T or ca.Ns[ta] != cb.Ns[tb]:
+            raise Refuse("frames do not match any more")
+        n = ca.Ns[ta]
+
+        def private(path, cfg, t):
+            f = open(path, "r", encoding="utf-8")
+            for u in range(t):
+                for _ in range(cfg.Ns[u] + 1):
+                    f.readline()
+            return f
+
+        def read(f):
+            return read_neighbors(f, n) if nmax is None else read_neighbors(f, n, nmax)
+        tag = f"read_sweep:{fb['kind']}"
+        fired_n = 0
+        for at in op["ats"]:
+            f1 = private(op["a"], ca, ta)
+            _res, exc, (_nev, _dig, fired) = self.call(lambda: read(f1), {"kind": op["exc"], "at": at})
+            self.drop_last()
+            f1.close()
+            if exc is not None and not (fired and fired[0] in LINE_FAULTS):
+                raise Violation(f"C05/reader-raised:read_sweep:{fa['kind']}", f"{exc[0]}: {exc[1]} at frame {ta} of {op['a']} Nmax={nmax}")
+            fired_n += 1 if fired else 0
+            f2 = private(op["b"], cb, tb)
+            res, exc, _ = self.call(lambda: read(f2))
+            self.drop_last()
+            f2.close()
+            if exc is not None:
+                raise Violation(f"C05/reader-raised:{tag}", f"{exc[0]}: {exc[1]} at frame {tb} of {op['b']} Nmax={nmax} after a read cancelled at line {at}")
+            self._judge_read(res, fb, tb, nmax, tag, op["b"])
+        self.ctx.probe("reader_sweep_points", fired_n)
+        return f"{op['a']}[{ta}] x{len(op['ats'])} ({fired_n} fired) then {op['b']}[{tb}] nmax={nmax}"
 
     def do_skip_frame(self, op):
         """The client steps over a frame itself, with the text API of the very handle it later
